@@ -504,6 +504,10 @@ class Interp:
                 fl = list(v.items)
                 fl[p[1]] = self.setp(fl[p[1]], path[1:], new)
                 return Tup(fl)
+            if isinstance(v, Closure):      # a `move` closure that mutates a captured variable
+                fl = list(v.caps)
+                fl[p[1]] = self.setp(fl[p[1]], path[1:], new)
+                return Closure(v.ty, fl)
             if v is None:
                 # partial initialisation of a tuple/struct
                 fl = [None] * (p[1] + 1)
